@@ -78,22 +78,7 @@ REG.contract(
 
 REG.contract(
     N + "station_ids", params=dict(self=Ref("ChargingNetwork", exact=True)), ret=Seq(Id), modifies=[],
-    ensures=[C("C10.station_order_is_registration_order", lambda old, new, ret: [
-        ret.len == old.self._EVSEs.keys.len,
-        AllIdx(0, ret.len, lambda i: ret[i] == old.self._EVSEs.keys[i])])])
+    extra=dict(returns=lambda old: old.self._EVSEs.keys, returns_props=("C10",)))     # station order is registration order
 
 
-# ---------------------------------------------------------------------------- feasibility (declared; bodies are numpy / complex arithmetic: C06 monitors them)
-NFEAS = z3.Function("NET_FEAS", z3.ArraySort(z3.IntSort(), z3.ArraySort(z3.IntSort(), z3.RealSort())), z3.IntSort(), z3.IntSort(), RefSort, z3.BoolSort())
-REG.contract(
-    N + "is_feasible", params=dict(self=Ref("ChargingNetwork", exact=True), schedule_matrix=Mat), ret=Bool, modifies=[],
-    assumed="numpy / complex-phasor body not verified: the result is the abstract network-side feasibility predicate of the matrix; only two "
-            "structural facts are used (no constraints => True, no columns => True); C06 monitors the predicate against the phasor definition",
-    ensures=[C("abstract", lambda old, new, ret: [
-        ret == NFEAS(old.schedule_matrix.arr, old.schedule_matrix.rows, old.schedule_matrix.cols, old.self.ref),
-        Implies(old.self.magnitudes.len == 0, ret), Implies(old.schedule_matrix.cols == 0, ret)])])
-REG.contract(
-    N + "constraint_current", params=dict(self=Ref("ChargingNetwork", exact=True), input_schedule=Mat), ret=Mat, modifies=[],
-    assumed="complex aggregate currents abstracted to a real matrix of the same shape (one row per constraint, one column per period): callers "
-            "under contract use only its shape (the warning branch of _update_schedules)",
-    ensures=[C("shape", lambda old, new, ret: [ret.rows == old.self.constraint_index.len, ret.cols == old.input_schedule.cols])])
+# feasibility: is_feasible / constraint_current are under contract in contracts/feasibility.py (C06)
